@@ -82,8 +82,9 @@ func fieldValuesAt(fn *ssa.Function, X ssa.Value, f *types.Var, at ssa.Instructi
 }
 
 type derivCtx struct {
-	P  *Prog
-	fn *ssa.Function
+	P     *Prog
+	fn    *ssa.Function
+	outer *derivCtx // the derivation whose helper this is (locals of the caller stay local)
 }
 
 // valueProv classifies where a slice/map value comes from, as seen at `at`.
@@ -139,6 +140,39 @@ func (d *derivCtx) valueProv(v ssa.Value, at ssa.Instruction, depth int) prov {
 				return prov{"fresh", o.String()}
 			}
 		}
+		// an unexported helper returning a slice or map (a generic `joinHooks(first, second)`): the provenance of
+		// what it returns, with its parameters bound to this call's arguments
+		if ci.static != nil && formulaHelper(ci.static) && depth < 6 {
+			callee := ci.static
+			saved := substEnv
+			substEnv = map[ssa.Value]ssa.Value{}
+			for k, v2 := range saved {
+				substEnv[k] = v2
+			}
+			for k, prm := range callee.Params {
+				if k < len(x.Call.Args) {
+					substEnv[prm] = x.Call.Args[k]
+				}
+			}
+			sub := &derivCtx{P: d.P, fn: callee, outer: d}
+			res := prov{"fresh", "every return of " + fname(callee) + " is fresh"}
+			n := 0
+			eachInstr(callee, func(_ *ssa.BasicBlock, _ int, in ssa.Instruction) {
+				rt, ok := in.(*ssa.Return)
+				if !ok || len(rt.Results) != 1 || res.kind != "fresh" {
+					return
+				}
+				n++
+				if pr := sub.valueProv(rt.Results[0], rt, depth+1); pr.kind != "fresh" {
+					res = pr
+					res.desc += " (returned by " + fname(callee) + ")"
+				}
+			})
+			substEnv = saved
+			if n > 0 {
+				return res
+			}
+		}
 		return prov{"unknown", "result of " + ci.calleeName()}
 	case *ssa.UnOp:
 		if x.Op != token.MUL {
@@ -167,6 +201,9 @@ func describeOperand(v ssa.Value) string {
 }
 
 func (d *derivCtx) isLocalObject(v ssa.Value) bool {
+	if d.outer != nil && d.outer.isLocalObject(v) {
+		return true
+	}
 	switch x := v.(type) {
 	case *ssa.Alloc:
 		return x.Parent() == d.fn
@@ -499,73 +536,102 @@ func (P *Prog) checkMergeOrder(r *Result) {
 		}
 		return nil
 	}
-	type ev struct {
-		in    ssa.Instruction
-		owner ssa.Value
-		field string
+	// On the decision paths of Merge (helpers such as a generic `joinHooks(first, second)` entered, their
+	// parameters bound to Merge's arguments): a copy event per `maps.Copy(dst, src)` / `append(dst, src...)` whose
+	// source is a field of an operand, named by the role of that field and the operand it belongs to; the
+	// recursive fold over the remaining operands.
+	spec := &pathSpec{name: "merge-order", inlineAll: true, reentrant: true}
+	spec.keep = func(f *ssa.Function) bool { return f == fn || (f.Parent() == nil && !formulaHelper(f)) }
+	spec.cond = func(iff *ssa.If) (string, string, string) { return "", "", "" }
+	ownerName := func(v ssa.Value) string {
+		switch srcOwner(v) {
+		case recv:
+			return "recv"
+		case other:
+			return "other"
+		}
+		return "?"
 	}
-	var evs []ev
-	eachInstr(fn, func(_ *ssa.BasicBlock, _ int, in ssa.Instruction) {
+	spec.events = func(in ssa.Instruction) []pathItem {
 		ci := callOf(in)
 		if ci == nil {
-			return
+			return nil
+		}
+		if ci.static == fn {
+			return []pathItem{{kind: "FOLD", in: in}}
 		}
 		if ci.static != nil && originName(ci.static) == "maps.Copy" {
-			evs = append(evs, ev{in, srcOwner(ci.instr.Common().Args[1]), "schema"})
+			return []pathItem{{kind: "COPY:schema", val: ownerName(ci.instr.Common().Args[1]), in: in}}
 		}
 		if ci.builtin == "append" && len(ci.instr.Common().Args) == 2 {
 			src := ci.instr.Common().Args[1]
 			if _, f := loadOfField(cv(src)); f != nil {
-				evs = append(evs, ev{in, srcOwner(src), P.roleName(f)})
+				return []pathItem{{kind: "COPY:" + P.roleName(f), val: ownerName(src), in: in}}
 			}
 		}
-	})
+		return nil
+	}
+	res := P.enumPathsSpec(fn, nil, spec)
+	if res.capHit {
+		r.undecided("C16/operand-order", "Merge", P.pos(fn.Pos()), "too many paths to enumerate")
+		return
+	}
 	for _, field := range []string{"schema", "tests", "postTransforms"} {
-		var a, b ssa.Instruction
-		for _, e := range evs {
-			if e.field != field {
-				continue
+		seenRecv, seenOther := false, false
+		var reversed ssa.Instruction
+		for _, p := range res.paths {
+			ri, oi := -1, -1
+			for i, it := range p.items {
+				if it.kind != "COPY:"+field {
+					continue
+				}
+				if it.val == "recv" && ri < 0 {
+					ri = i
+					seenRecv = true
+				}
+				if it.val == "other" && oi < 0 {
+					oi = i
+					seenOther = true
+				}
 			}
-			if e.owner == recv {
-				a = e.in
-			}
-			if e.owner == other {
-				b = e.in
+			if ri >= 0 && oi >= 0 && oi < ri && reversed == nil {
+				reversed = p.items[oi].in
 			}
 		}
 		c := "Merge#" + field
 		switch {
-		case a == nil || b == nil:
+		case !seenRecv || !seenOther:
 			r.bad("C16/operand-order", c, P.pos(fn.Pos()), fmt.Sprintf("Merge does not carry over %s of both the receiver and the first operand", field))
-		case !instrBeforeOrReach(a, b):
-			r.bad("C16/operand-order", c, P.ipos(b), fmt.Sprintf("Merge applies the operand's %s before the receiver's: on conflicts the earlier schema wins / order of tests is reversed", field))
+		case reversed != nil:
+			r.bad("C16/operand-order", c, P.ipos(reversed), fmt.Sprintf("Merge applies the operand's %s before the receiver's: on conflicts the earlier schema wins / order of tests is reversed", field))
 		default:
-			r.ok("C16/operand-order", c, P.ipos(a), "receiver's "+field+" applied before the operand's")
+			r.ok("C16/operand-order", c, P.pos(fn.Pos()), "receiver's "+field+" applied before the operand's")
 		}
 	}
-	// the loop over others must come after both
-	loopOK := false
-	eachInstr(fn, func(b *ssa.BasicBlock, _ int, in ssa.Instruction) {
-		ci := callOf(in)
-		if ci != nil && ci.static == fn { // recursive new.Merge(o)
-			inL := false
-			for _, nl := range naturalLoops(fn) {
-				if nl.body[b] {
-					inL = true
-				}
-			}
-			after := true
-			for _, e := range evs {
-				if !instrBeforeOrReach(e.in, in) {
-					after = false
-				}
-			}
-			if inL && after {
-				loopOK = true
+	// the fold over the remaining operands happens in a loop, after every copy of the first two
+	loopOK, sawFold := true, false
+	for _, p := range res.paths {
+		fi := p.index("FOLD")
+		if fi < 0 {
+			continue
+		}
+		sawFold = true
+		inLoop := false
+		for _, it := range p.items[:fi] {
+			if it.kind == "LOOP" && it.val == "iter" {
+				inLoop = true
 			}
 		}
-	})
-	if loopOK {
+		if !inLoop {
+			loopOK = false
+		}
+		for _, it := range p.items[fi+1:] {
+			if strings.HasPrefix(it.kind, "COPY:") {
+				loopOK = false
+			}
+		}
+	}
+	if loopOK && sawFold {
 		r.ok("C16/operand-order", "Merge#others", P.pos(fn.Pos()), "remaining operands folded left after receiver and first operand")
 	} else {
 		r.bad("C16/operand-order", "Merge#others", P.pos(fn.Pos()), "the additional operands are not folded in order after the first two")
